@@ -12,7 +12,13 @@ LEVEL_TEXT = ("Lean 4 theorems over (a) the leaf closed forms regenerated from g
               "controlled / multiplexed / time-evolution / block-encoding / preparation gates over arbitrary index types, lifted to every "
               "gate tree by structural induction; composite assembly (kron/diag/block_diag/np.block, inverse(), is_hermitian delegation) "
               "is tied to the code by exact differential execution of the Lean model on the same gate trees; the same statements are ALSO proved directly about the executable gate-tree model that the driver runs (Tree.mat / inverse / herm over exact Gaussian rationals, structural induction over Tree.WF, files C..Tree.lean)."
-              " Pauli strings and weighted strings: is_unitary() claims are exact (every string matrix is unitary; a weighted string iff |weight| = 1), tied by differential execution. qUCC ansatz: exp of the skew-adjoint generator T - T^H is unitary (theorems of C20, obligations here too), generator compared exactly with the implementation's encoded cluster operator.")
+              " Pauli strings and weighted strings: is_unitary() claims are exact (every string matrix is unitary; a weighted string iff |weight| = 1), tied by differential execution. qUCC ansatz: exp of the skew-adjoint generator T - T^H is unitary (theorems of C20, obligations here too), generator compared exactly with the implementation's encoded cluster operator."
+              " WHAT CAN BE CONSTRUCTED (C01Ctor.lean, model QibModel/GateCtor.lean): every __init__ of gates.py and the binding methods on / set_control / "
+              "set_auxiliary_qubits are modelled with their checks, order and exception types; acceptance and rejection are characterised exactly per class "
+              "(iff theorems), an accepted expression - through any nesting - denotes a tree satisfying the constructor's own well-formedness, which together "
+              "with the payload conditions named in the property's quantifier is the Tree.WF of the unitarity theorems (C01_wf_iff, C01_construct_unitary); "
+              "where a constructor guarantees less (user matrices to allclose tolerance, unchecked block-encoding / time-evolution operators, the zero "
+              "preparation vector) the gap is a theorem with a witness; tied by evaluating the same constructor expressions with the real classes.")
 ASSUMPTIONS = ["scipy.linalg.expm is modelled by NormedSpace.exp, sqrtm(1-H^2) by any Hermitian square root commuting with H, "
                "np.linalg.qr by any real orthogonal completion with first column +-x/|x| (each assumption is checked numerically on every sampled call)",
                "IEEE rounding/overflow is not modelled: theorems are over R/C, the numeric tie uses tolerance 1e-9 and |theta| <= 1e12; scipy.linalg.expm loses unitarity at the level eps*|t|*||H|| (6e-5 at 5e11), evolution times are sampled with |t| <= 1e4",
